@@ -12,7 +12,7 @@ def catalogue(K):
     """two tables with sizes declared [0, K] (so that every database of <= K rows conforms)"""
     return [
         dict(name="t", size=[0, K], fields=[f("id", t_int((0, 100)), "Unique"), f("a", t_int((0, 10))), f("b", t_opt(t_float((-5.0, 5.0)))), f("c", t_int((1, 1), (2, 2), (3, 3))),
-                                            f("g", t_int((-3, 3))), f("k", t_int((0, 50)), "Unique")]),
+                                            f("g", t_int((-3, 3))), f("k", t_int((0, 50)), "Unique"), f("n", t_opt(t_int((0, 9))), "Unique")]),
         dict(name="w", size=[0, 1], fields=[f("id", t_int((0, 100)), "PrimaryKey"), f("y", t_float((0.0, 1.0)))]),
         dict(name="u", size=[0, K], fields=[f("id", t_int((0, 100)), "PrimaryKey"), f("x", t_float((0.0, 10.0))), f("d", t_opt(t_int((-3, 3)))), f("a", t_int((5, 20))), f("k", t_int((0, 50)), "Unique")]),
     ]
@@ -66,12 +66,23 @@ FIXED = [
     "SELECT t.a AS ta, w.y AS wy FROM t FULL JOIN w ON t.id = w.id",
     "SELECT t.a AS ta, w.y AS wy FROM t JOIN w ON t.id = w.id",
     "SELECT u.x AS ux, w.y AS wy FROM w LEFT JOIN u ON u.id = w.id",
+    # grouping by a UNIQUE but nullable column (several NULLs form one group), by keys, arithmetic on unique columns
+    "SELECT n, sum(a) AS s, count(*) AS c FROM t GROUP BY n",
+    "SELECT n, count(a) AS c, max(g) AS m FROM t WHERE a > 1 GROUP BY n",
+    "SELECT k, sum(a) AS s, count(*) AS c FROM t GROUP BY k",
+    "SELECT u.d AS d, sum(t.a) AS s FROM t LEFT JOIN u ON t.id = u.id GROUP BY u.d",
+    "SELECT id * 0 AS z FROM t",
+    "SELECT id + 1 AS z, k - 3 AS y, id * 2 AS x FROM t",
+    "SELECT id * c AS z, k * g AS y FROM t",
+    "SELECT -id AS z, 0 - k AS y FROM t",
+    "SELECT n AS z FROM t",
 ]
 
 
 def random_program(rnd):
     cols_t = ["a", "g", "c", "id"]
-    num = lambda: rnd.choice(["a", "g", "c", "b", "a + g", "a * c", "a - c", "g * g", "b * 2", "a + 1", "abs(g)", "greatest(a, g)", "least(c, g)"])
+    num = lambda: rnd.choice(["a", "g", "c", "b", "a + g", "a * c", "a - c", "g * g", "b * 2", "a + 1", "abs(g)", "greatest(a, g)", "least(c, g)",
+                              "id * %d" % rnd.randint(0, 2), "k + %d" % rnd.randint(0, 3), "id - k", "n", "n * %d" % rnd.randint(0, 1), "id %% %d" % rnd.randint(1, 3)])
     cond = lambda: rnd.choice(["a > %d" % rnd.randint(0, 10), "g < %d" % rnd.randint(-3, 3), "c = %d" % rnd.randint(1, 3), "b > %s" % rnd.choice(["0", "1.5", "-2"]), "a >= g", "b IS NULL",
                                "c IN (1, 2)", "a + g > 4", "NOT (a > 5)", "a <> %d" % rnd.randint(0, 10)])
     where = lambda: (" WHERE " + (cond() if rnd.random() < 0.6 else "%s %s %s" % (cond(), rnd.choice(["AND", "OR"]), cond()))) if rnd.random() < 0.6 else ""
@@ -84,7 +95,7 @@ def random_program(rnd):
             q += " LIMIT %d" % rnd.randint(0, 3) + (" OFFSET %d" % rnd.randint(0, 2) if rnd.random() < 0.5 else "")
         return q
     if r < 0.6:
-        keys = rnd.sample(["a", "g", "c"], rnd.choice([0, 1, 1, 2]))
+        keys = rnd.sample(["a", "g", "c", "n", "k", "id"], rnd.choice([0, 1, 1, 2]))
         aggs = []
         for i in range(rnd.choice([1, 2, 3])):
             fn_ = rnd.choice(["sum", "count", "avg", "min", "max"])
